@@ -58,7 +58,7 @@ def SNPost (s : St) (g : SGen) : St × SGen × Out → Prop
   | (s', g', .raise e) => g'.live = false ∧ s'.running = false ∧ s'.exception = true ∧ s'.aborting = true ∧
       s'.nCompleted = s.nCompleted ∧ SKeep s s' ∧
       ((e = .task (s.base + s.nCompleted) ∧ s.base + s.nCompleted ∈ s.failIds ∧
-          s'.nDispTasks = s.nCompleted + 1) ∨
+          s'.nDispTasks = s.nCompleted + 1 ∧ s.nCompleted < s.spec.n) ∨
        (∃ pos, e = .iter pos ∧ 0 ≤ s.spec.iterfail ∧ (pos : Int) = (s.base : Int) + s.spec.iterfail ∧
           g.pending = []))
   | (_, _, .hang) => False
@@ -86,9 +86,10 @@ theorem seqNext_cons {s : St} {g : SGen} (fuel : Nat) (h : SInv s g) {id : Nat} 
   · rw [if_pos hf]
     have hf' : id ∈ s.failIds := by simpa [ev] using hf
     refine ⟨rfl, rfl, rfl, rfl, rfl, ⟨rfl, rfl, rfl, rfl, rfl, rfl, rfl, rfl, rfl, rfl, rfl, rfl, rfl, rfl⟩,
-      Or.inl ⟨by rw [hid], by rw [← hid]; exact hf', ?_⟩⟩
-    show s.nDispTasks + 1 = _
-    rw [h.disp]
+      Or.inl ⟨by rw [hid], by rw [← hid]; exact hf', ?_, ?_⟩⟩
+    · show s.nDispTasks + 1 = _
+      rw [h.disp]
+    · have := h.pos; have := h.le_n; rw [hpl] at *; omega
   · rw [if_neg hf]
     have hf' : id ∉ s.failIds := by simpa [ev] using hf
     refine ⟨hid, hf', ?_, rfl, rfl,
@@ -193,9 +194,229 @@ theorem seqNext_spec {s : St} {g : SGen} (fuel : Nat) (h : SInv s g) : SNPost s 
           obtain ⟨a1, a2, a3, a4, a5, a6, a7⟩ := hnext
           refine ⟨a1, a2, a3, a4, a5, ⟨a6.trk, a6.parked, a6.jobs, a6.jobsSet, a6.callId, a6.callCtr, a6.sched,
             a6.failIds, a6.base, a6.spec, a6.hung, a6.managed, a6.calling, a6.now⟩, ?_⟩
-          rcases a7 with ⟨b1, b2, b3⟩ | ⟨pos, b1, b2, b3, b4⟩
-          · exact Or.inl ⟨b1, b2, b3⟩
+          rcases a7 with ⟨b1, b2, b3, b4⟩ | ⟨pos, b1, b2, b3, b4⟩
+          · exact Or.inl ⟨b1, b2, b3, b4⟩
           · rw [hir] at b4; cases b4
         | hang => exact hnext
+
+/-! ### `seqStart` -/
+
+theorem seqStart_running (c : Cfg) (base : Nat) (spec : CallSpec) (s : St) (h : s.running = true) :
+    seqStart c base spec s = (s, { live := false }, some .runtime) := by
+  unfold seqStart; rw [if_pos h]
+
+theorem seqStart_eq (c : Cfg) (base : Nat) (spec : CallSpec) (s : St) :
+    seqStart c base spec s =
+      if s.running then (s, { live := false }, some .runtime)
+      else
+        ((if c.bsAuto then hook c false { ({ configured c (resetState s) with iterating := true, origAlive := true, base := base, spec := spec, srcPos := 0, srcDead := false } : St) with bsI := (configured c (resetState s)).bsI + 1 }
+          else { configured c (resetState s) with iterating := true, origAlive := true, base := base, spec := spec, srcPos := 0, srcDead := false }),
+         { bs := scriptedBs c { configured c (resetState s) with iterating := true, origAlive := true, base := base, spec := spec, srcPos := 0, srcDead := false } }, none) := rfl
+
+/-- What `seqStart` leaves of the state it started from. -/
+structure SStarted (base : Nat) (spec : CallSpec) (s s1 : St) : Prop where
+  trk : s1.trk = s.trk
+  parked : s1.parked.Sublist s.parked
+  jobs : s1.jobs = s.jobs
+  jobsSet : s1.jobsSet = s.jobsSet
+  callId : s1.callId = s.callCtr + 1
+  callCtr : s1.callCtr = s.callCtr + 1
+  failIds : s1.failIds = s.failIds
+  base : s1.base = base
+  spec : s1.spec = spec
+  hung : s1.hung = s.hung
+  sched : s1.sched.length ≤ s.sched.length
+  zero : s1.nCompleted = 0 ∧ s1.srcPos = 0
+  managed : s1.managed = s.managed
+  calling : s1.calling = s.calling
+  stale : AllStale s1
+
+theorem seqStart_spec (c : Cfg) (base : Nat) (spec : CallSpec) {s : St} (hi : Idle s) :
+    ∃ s1 bs, seqStart c base spec s = (s1, { bs := bs }, none) ∧ SInv s1 { bs := bs } ∧ SStarted base spec s s1 := by
+  rw [seqStart_eq, if_neg (by simp [hi.running])]
+  have hstale : AllStale (resetState s) := by
+    intro i _
+    have := hi.callId_le i
+    show (getTrk s i).callId ≠ s.callCtr + 1
+    omega
+  obtain ⟨lg, pk, sc, ib, eC, hpk, hsc⟩ := configured_stale c hstale
+  rw [eC]
+  have hstD : AllStale ({ ({ resetState s with log := lg, parked := pk, sched := sc, inCb := ib } : St) with iterating := true, origAlive := true, base := base, spec := spec, srcPos := 0, srcDead := false }) := by
+    intro i hi'
+    exact hstale i (hpk.subset hi')
+  by_cases hau : c.bsAuto = true
+  · rw [if_pos hau]
+    have hst2 : AllStale ({ ({ ({ resetState s with log := lg, parked := pk, sched := sc, inCb := ib } : St) with iterating := true, origAlive := true, base := base, spec := spec, srcPos := 0, srcDead := false } : St) with bsI := ({ resetState s with log := lg, parked := pk, sched := sc, inCb := ib } : St).bsI + 1 }) := hstD
+    obtain ⟨lg2, pk2, sc2, ib2, e2, hpk2, hsc2⟩ := hook_nosleep_stale c hst2
+    rw [e2]
+    refine ⟨_, _, rfl, ?_, ?_⟩
+    · refine ⟨rfl, rfl, rfl, rfl, rfl, rfl, Nat.zero_le _, (fun hh => by simpa using hh), (fun h => by cases h), Nat.zero_le _, rfl, ?_⟩
+      intro id h0 h1
+      have h1' : id < base + 0 := h1
+      have h0' : base ≤ id := h0
+      omega
+    · exact ⟨rfl, hpk2.trans hpk, rfl, rfl, rfl, rfl, rfl, rfl, rfl, rfl, Nat.le_trans hsc2 hsc, ⟨rfl, rfl⟩, rfl, rfl,
+        fun i hi' => hstale i (hpk.subset (hpk2.subset hi'))⟩
+  · rw [if_neg hau]
+    refine ⟨_, _, rfl, ?_, ?_⟩
+    · refine ⟨rfl, rfl, rfl, rfl, rfl, rfl, Nat.zero_le _, (fun hh => by simpa using hh), (fun h => by cases h), Nat.zero_le _, rfl, ?_⟩
+      intro id h0 h1
+      have h1' : id < base + 0 := h1
+      have h0' : base ≤ id := h0
+      omega
+    · exact ⟨rfl, hpk, rfl, rfl, rfl, rfl, rfl, rfl, rfl, rfl, hsc, ⟨rfl, rfl⟩, rfl, rfl, hstD⟩
+
+/-! ### `seqDrain`, `seqCallList` -/
+
+/-- How draining a live sequential generator ends. -/
+def SDPost (s : St) (acc : List Nat) : St × SGen × List Nat × Out → Prop
+  | (s', _, acc', .stop) => acc' = acc ++ List.range' (s.base + s.nCompleted) (s.spec.n - s.nCompleted) ∧
+      s'.nCompleted = s.spec.n ∧ s'.running = false ∧ s'.exception = false ∧ s'.aborting = false ∧
+      ¬ (0 ≤ s.spec.iterfail ∧ s.spec.iterfail ≤ s.spec.n) ∧ SKeep s s' ∧
+      (∀ id, s.base ≤ id → id < s.base + s.spec.n → id ∉ s.failIds)
+  | (s', _, acc', .raise e) =>
+      acc' = acc ++ List.range' (s.base + s.nCompleted) (s'.nCompleted - s.nCompleted) ∧
+      s.nCompleted ≤ s'.nCompleted ∧ s'.running = false ∧ s'.exception = true ∧ s'.aborting = true ∧ SKeep s s' ∧
+      (∀ id, s.base ≤ id → id < s.base + s'.nCompleted → id ∉ s.failIds) ∧
+      ((e = .task (s.base + s'.nCompleted) ∧ s.base + s'.nCompleted ∈ s.failIds ∧ s'.nCompleted < s.spec.n ∧
+          s'.nDispTasks = s'.nCompleted + 1) ∨
+       (∃ pos, e = .iter pos ∧ 0 ≤ s.spec.iterfail ∧ (pos : Int) = (s.base : Int) + s.spec.iterfail))
+  | (_, _, _, .value _) => False
+  | (_, _, _, .hang) => False
+
+theorem seqDrain_spec (fuel : Nat) : ∀ (n : Nat) (s : St) (g : SGen) (acc : List Nat), SInv s g →
+    s.spec.n - s.nCompleted + 1 ≤ n → SDPost s acc (seqDrain n (fuel + 2) s g acc) := by
+  intro n
+  induction n with
+  | zero => intro s g acc _ hn; omega
+  | succ n ih =>
+    intro s g acc h hn
+    unfold seqDrain
+    have hp := seqNext_spec fuel h
+    generalize seqNext (fuel + 2) s g = res at hp
+    obtain ⟨s1, g1, o⟩ := res
+    have hlt : s.nCompleted ≤ s.spec.n := by have := h.pos; have := h.le_n; omega
+    cases o with
+    | value v =>
+      simp only
+      obtain ⟨a1, a2, a3, a4, a5, a6⟩ := hp
+      have hlt1 : s1.nCompleted ≤ s1.spec.n := by have := a3.pos; have := a3.le_n; omega
+      have := ih s1 g1 (acc ++ [v]) a3 (by rw [a6.spec, a4]; rw [a6.spec, a4] at hlt1; omega)
+      generalize seqDrain n (fuel + 2) s1 g1 (acc ++ [v]) = res at this
+      obtain ⟨s', g', acc', o'⟩ := res
+      have hrange : ∀ k, s.nCompleted + 1 ≤ s.nCompleted + 1 + k →
+          acc ++ [v] ++ List.range' (s.base + (s.nCompleted + 1)) k =
+          acc ++ List.range' (s.base + s.nCompleted) (k + 1) := by
+        intro k _
+        rw [List.range'_succ, a1]
+        simp [Nat.add_assoc]
+      cases o' with
+      | stop =>
+        obtain ⟨b1, b2, b3, b4, b5, b6, b7, b8⟩ := this
+        rw [a6.base, a6.spec, a4] at b1
+        rw [a6.spec] at b2 b6
+        rw [a6.base, a6.spec, a6.failIds] at b8
+        refine ⟨?_, b2, b3, b4, b5, b6, a6.trans b7, b8⟩
+        rw [b1, hrange _ (by omega)]
+        rw [a6.spec, a4] at hlt1
+        congr 2; omega
+      | raise e =>
+        obtain ⟨b1, b2, b3, b4, b5, b6, b7, b8⟩ := this
+        rw [a6.base, a4] at b1
+        rw [a4] at b2
+        rw [a6.base, a6.failIds] at b7
+        rw [a6.base, a6.spec, a6.failIds] at b8
+        refine ⟨?_, by omega, b3, b4, b5, a6.trans b6, b7, b8⟩
+        rw [b1, hrange _ (by omega)]
+        congr 2; omega
+      | value _ => exact this
+      | hang => exact this
+    | stop =>
+      simp only
+      obtain ⟨_, a2, a3, a4, a5, a6, _, a8, _, a10⟩ := hp
+      refine ⟨by rw [a6]; simp, by rw [a5, a6], a2, a3, a4, a8, a10, ?_⟩
+      intro id h0 h1
+      exact h.ok id h0 (by rw [a6]; exact h1)
+    | raise e =>
+      simp only
+      obtain ⟨_, a2, a3, a4, a5, a6, a7⟩ := hp
+      refine ⟨by rw [a5]; simp, by rw [a5]; exact Nat.le_refl _, a2, a3, a4, a6, by rw [a5]; exact h.ok, ?_⟩
+      rw [a5]
+      rcases a7 with ⟨b1, b2, b3, b4⟩ | ⟨pos, b1, b2, b3, _⟩
+      · exact Or.inl ⟨b1, b2, b4, b3⟩
+      · exact Or.inr ⟨pos, b1, b2, b3⟩
+    | hang => exact hp.elim
+
+/-- The object is idle again after a sequential call has ended. -/
+theorem idle_after {base : Nat} {spec : CallSpec} {s₀ s1 s' : St} (hi : Idle s₀) (hS : SStarted base spec s₀ s1)
+    (hk : SKeep s1 s') (hr : s'.running = false) : Idle s' := by
+  have hg : ∀ j, getTrk s' j = getTrk s₀ j := fun j => by
+    rw [getTrk_same hk.trk, getTrk_same hS.trk]
+  refine ⟨hr, by rw [hk.jobs, hS.jobs]; exact hi.jobs, by rw [hk.jobsSet, hS.jobsSet]; exact hi.jobsSet, ?_, ?_, ?_, ?_⟩
+  · intro j; rw [hg, hk.callCtr, hS.callCtr]; have := hi.callId_le j; omega
+  · intro j hj; rw [hk.parked] at hj; rw [hk.trk, hS.trk]; exact hi.parked_lt j (hS.parked.subset hj)
+  · rw [hk.parked]; exact hi.parked_nodup.sublist hS.parked
+  · refine Or.inr ?_
+    intro j hj
+    rw [hk.parked] at hj
+    have := hS.stale j hj
+    rw [getTrk_same hk.trk, hk.callId]; exact this
+
+/-- How a sequential list-mode call on an idle object ends. -/
+def SCPost (base : Nat) (spec : CallSpec) (s₀ : St) : St × CallOutcome → Prop
+  | (s', .ret v) => v = List.range' base spec.n ∧ Idle s' ∧ s'.nCompleted = spec.n ∧ s'.exception = false ∧
+      s'.hung = s₀.hung ∧ s'.failIds = s₀.failIds ∧ s'.calling = s₀.calling ∧
+      (∀ id, base ≤ id → id < base + spec.n → id ∉ s₀.failIds) ∧ ¬ (0 ≤ spec.iterfail ∧ spec.iterfail ≤ spec.n)
+  | (s', .raised e) => Idle s' ∧ s'.exception = true ∧ s'.hung = s₀.hung ∧ s'.failIds = s₀.failIds ∧
+      s'.calling = s₀.calling ∧
+      (∀ id, base ≤ id → id < base + s'.nCompleted → id ∉ s₀.failIds) ∧
+      ((e = .task (base + s'.nCompleted) ∧ base + s'.nCompleted ∈ s₀.failIds ∧ s'.nCompleted < spec.n ∧
+          s'.nDispTasks = s'.nCompleted + 1) ∨
+       (∃ pos, e = .iter pos ∧ 0 ≤ spec.iterfail ∧ (pos : Int) = (base : Int) + spec.iterfail))
+  | (_, .hung) => False
+
+theorem seqCallList_spec (c : Cfg) {fuel base : Nat} {spec : CallSpec} {s₀ : St} (hi : Idle s₀)
+    (hfuel : spec.n + 2 ≤ fuel) : SCPost base spec s₀ (seqCallList c fuel base spec s₀) := by
+  obtain ⟨s1, bs, he, hI, hS⟩ := seqStart_spec c base spec hi
+  unfold seqCallList
+  rw [he]
+  simp only
+  obtain ⟨f, hf⟩ : ∃ f, fuel = f + 2 := ⟨fuel - 2, by omega⟩
+  subst hf
+  have hd := seqDrain_spec f (f + 2) s1 { bs := bs } [] hI (by rw [hS.spec, hS.zero.1]; omega)
+  generalize seqDrain (f + 2) (f + 2) s1 { bs := bs } [] = res at hd
+  obtain ⟨s', g', acc, o⟩ := res
+  cases o with
+  | stop =>
+    obtain ⟨b1, b2, b3, b4, b5, b6, b7, b8⟩ := hd
+    rw [hS.base, hS.spec, hS.zero.1] at b1
+    rw [hS.spec] at b2 b6
+    rw [hS.base, hS.spec, hS.failIds] at b8
+    exact ⟨by simpa using b1, idle_after hi hS b7 b3, b2, b4, b7.hung.trans hS.hung, b7.failIds.trans hS.failIds,
+      b7.calling.trans hS.calling, b8, b6⟩
+  | raise e =>
+    obtain ⟨b1, b2, b3, b4, b5, b6, b7, b8⟩ := hd
+    rw [hS.base, hS.failIds] at b7
+    rw [hS.base, hS.spec, hS.failIds] at b8
+    exact ⟨idle_after hi hS b6 b3, b4, b6.hung.trans hS.hung, b6.failIds.trans hS.failIds,
+      b6.calling.trans hS.calling, b7, b8⟩
+  | value _ => exact hd.elim
+  | hang => exact hd.elim
+
+/-! ### `seqClose`, laziness -/
+
+theorem seqClose_live (s : St) {g : SGen} (h : g.live = true) : seqClose s g = (failed s, { g with live := false }) := by
+  unfold seqClose; rw [if_pos h]
+
+theorem seqNext_dead (fuel : Nat) (s : St) {g : SGen} (h : g.live = false) :
+    seqNext (fuel + 1) s g = (s, g, .stop) := by
+  unfold seqNext; rw [if_pos (by simp [h])]
+
+/-- LAZINESS. While the sequential generator is suspended, the items taken from the input exceed the tasks executed
+by exactly the number of pending items of the current re-batched tuple, which is at most `max batch_size 1`. -/
+theorem seq_lookahead {s : St} {g : SGen} (h : SInv s g) :
+    s.srcPos - s.nCompleted = g.pending.length ∧ g.pending.length ≤ max g.bs 1 := by
+  have := h.pos
+  exact ⟨by omega, h.plen⟩
 
 end JoblibModel.ParallelSeq
